@@ -193,6 +193,24 @@ impl Property for C16 {
         }
         // ---- recovery
         let res = recover(&own);
+        // recover takes any iterable of shares: the answer must not depend on HOW the same shares are handed
+        // over (a slice, or a lazy adaptor whose size_hint says little)
+        {
+            let lazy = match ctx.ch.draw(4) {
+                0 => recover(own.iter().filter(|_| true)),
+                1 => recover(own.iter().skip_while(|_| false)),
+                2 => recover(own.chunks(2).flatten()),
+                _ => recover(own.iter().chain(std::iter::empty())),
+            };
+            let same = match (&res, &lazy) {
+                (Ok(a), Ok(b)) => a.get_message() == b.get_message(),
+                (Err(_), Err(_)) => true,
+                _ => false,
+            };
+            if !same {
+                return Err(Violation::new("c16.recover", "iterator_dependent", format!("recover answers {} for a slice of {} shares (t={}) and {} for the same shares behind a lazy iterator", if res.is_ok() { "Ok" } else { "Err" }, own.len(), t, if lazy.is_ok() { "Ok" } else { "Err" })));
+            }
+        }
         if t == 0 {
             if res.is_ok() {
                 return Err(Violation::new("c16.t0", "t0_recovers", "threshold 0 recovered"));
